@@ -257,3 +257,22 @@ def rule_shared_state(ctx, R, modules, what):
         ctx.ob(R, f.qname, f"no write into process-wide state ({desc.split(' is ')[0]})", False,
                f"{desc}; the stored value also depends on {missing[:6]}, which the key {sorted(kd)} does not cover; {what}", node)
     ctx.ob(R, "darsia", f"{len(mods)} module(s), {n_funcs} function(s) scanned for writes into module-/class-level containers", True, "", None)
+
+
+def shared(ctx, prefix, rule_fn, *args, why=""):
+    """Run a rule that belongs to another property as a sub-rule of this one (same obligations, keys prefixed):
+    used where this property's behaviour rests on a mechanism whose structural conditions are decided elsewhere."""
+    n0 = len(ctx.obs)
+    before_text, before_floor, before_inst = dict(ctx.rule_text), dict(ctx.floors), dict(ctx.instances)
+    rule_fn(ctx, *args)
+    new_rules = {o.rule for o in ctx.obs[n0:]} | (set(ctx.rule_text) - set(before_text)) | (set(ctx.floors) - set(before_floor))
+    for o in ctx.obs[n0:]:
+        o.rule = f"{prefix}/{o.rule}"
+    for r in new_rules:
+        for d, old in ((ctx.rule_text, before_text), (ctx.floors, before_floor), (ctx.instances, before_inst)):
+            if r in d and (r not in old or d is ctx.instances):
+                val = d.pop(r)
+                if d is ctx.instances and r in old:
+                    d[r] = old[r]
+                    val = val - old[r]
+                d[f"{prefix}/{r}"] = (f"(shared: {why}) " + val) if d is ctx.rule_text and why else val
